@@ -92,8 +92,11 @@ class SslRecord(ParsableBase):
         except InvalidValue as e:
             six.raise_from(InvalidValue(e.value, SslMessageType), e)
 
+        header_length = parser.parsed_length - 1
         parser.parse_variant('message', SslSubprotocolMessageParser(parser['message_type']))
         parser.parse_raw('padding', padding_length)
+        if parser.parsed_length != header_length + record_length:
+            raise InvalidValue(record_length, SslRecord, 'record_length')
 
         return SslRecord(message=parser['message']), parser.parsed_length
 
